@@ -69,8 +69,16 @@ class Partition:
 
     def heal(self) -> None:
         """Remove only this partition's pairs, leaving others intact."""
-        self._network._partitioned_pairs -= self.pairs
-        self._network._directed_partitions -= self.directed_pairs
+        network = self._network
+        network._open_partitions = [p for p in network._open_partitions if p is not self]
+        # Partitions may overlap: a pair stays blocked while another open
+        # partition still covers it.
+        freed, freed_directed = self.pairs, self.directed_pairs
+        for other in network._open_partitions:
+            freed = freed - other.pairs
+            freed_directed = freed_directed - other.directed_pairs
+        network._partitioned_pairs -= freed
+        network._directed_partitions -= freed_directed
         logger.info(
             "[%s] Selective partition healed: %d bidirectional + %d directed pairs",
             self._network.name,
@@ -106,6 +114,11 @@ class Network(Entity):
 
     # Directed partition state: set of (source, dest) tuples (asymmetric)
     _directed_partitions: set[tuple[str, str]] = field(default_factory=set, init=False)
+
+    # Handles of the open partitions: a pair is blocked while any of them covers it
+    _open_partitions: list[Partition] = field(
+        default_factory=list, init=False, repr=False, compare=False
+    )
 
     # Track all known entities for partition validation
     _known_entities: dict[str, Entity] = field(default_factory=dict, init=False)
@@ -242,11 +255,13 @@ class Network(Entity):
                 [e.name for e in group_b],
             )
 
-        return Partition(
+        handle = Partition(
             pairs=frozenset(bidirectional_pairs),
             directed_pairs=frozenset(directed_pairs),
             _network=self,
         )
+        self._open_partitions.append(handle)
+        return handle
 
     def heal_partition(self) -> None:
         """Remove all network partitions, restoring full connectivity."""
@@ -254,6 +269,7 @@ class Network(Entity):
         num_directed = len(self._directed_partitions)
         self._partitioned_pairs.clear()
         self._directed_partitions.clear()
+        self._open_partitions.clear()
         logger.info(
             "[%s] All partitions healed: %d bidirectional + %d directed pairs restored",
             self.name,
